@@ -12,6 +12,7 @@ V: RateLimitedIssuer.Evaluate on an honest request, on every single-bit change
    an AAD that leaves the request key out (the harness seals with go-hpke and
    signs with the ECDSA fork itself)."""
 import vlib
+from checks import ages_common as ag
 from checks import verdicts_common as vc
 from checks import issuance_common as ic
 
@@ -20,7 +21,9 @@ def run(ctx):
     ctx.model_check("MC_Issuance", "MC_RL.cfg", workers=2)
     n, cases, kinds = ic.run(ctx, "C07", ["rl"])
     vn, vcases, vdepth = vc.run(ctx, ['rlissuer', 'rlorigins'])   # Verdicts.tla: every history of presentations on one long-lived object
+    an, acases = ag.run(ctx, ['rlunreg'])   # Ages.tla: every schedule of phases on one long-lived object, each phase scaled to n operations
     return ctx.finish({
+        **ag.coverage(an, acases),
         "traces_validated_against_impl": n,
         "evaluations": len(cases),
         "distinct_nontrivial": ic.distinct(cases),
@@ -37,6 +40,8 @@ def run(ctx):
 
 
 def replay(ctx, path):
+    if vlib.json.load(open(path)).get("family") == "ages":
+        return ag.replay(ctx, path)
     if vlib.json.load(open(path)).get("family") == "verdicts":
         return vc.replay(ctx, path)
     return ctx.replay_case(path, "issuance", "Trace_Issuance", cfg="Trace_Issuance_C07.cfg")
